@@ -49,7 +49,7 @@ SPEC = {
     "theorems": [T + n for n in [
         "binToks_lexes", "unTok_lexes", "tables_agree", "assoc_agrees", "ternary_level", "unary_tables_agree",
         "glue_prefix_prefix", "glue_postfix_next", "glue_needs_space", "paren_rule_matches_grammar",
-        "roundtrip_expr_partial", "roundtrip_subexpr_partial", "literal_roundtrip_partial", "negative_literals_break",
+        "roundtrip_expr_partial", "roundtrip_subexpr_partial", "roundtrip_comma_positions_partial", "literal_roundtrip_partial", "negative_literals_break",
         "decimal_roundtrip"]],
     "harness": "c09",
     "harness_args": harness_args,
